@@ -39,6 +39,21 @@
  *        coap_free_context); any other sanitizer report / assert of a life process ends the execution abnormally
  *        with the report in the execution's stderr, where vx names it.
  *
+ * Transports: the server listens on UDP and on TCP (same address, as coap-server does).  Every request operation carries
+ * a transport flag: over UDP it comes from the raw datagram peers (ctl, p1, p2), over TCP from the raw RFC 8323 peer t
+ * (one connection per server process: connect, CSM exchange, requests; the connection dies with the server process).  The
+ * persistence files store the transport of the request next to the raw packet and the loader re-parses the packet with
+ * that transport's framing: the independent reader below does the same (a record whose packet reads only with the other
+ * framing is "mislabelled").  The generated histories are all-UDP; the explicit family "mixed-transport" (mixed_family())
+ * creates resources / registers / cancels over both transports in every order.  Peer t may observe: libcoap does not
+ * persist observations of stream sessions and the connection does not outlive the process, so the model says that t's
+ * observations end with every server process and are NOT re-established (a subscriber entry for t after a restart is a
+ * failure); what t's requests do to the records of the UDP observers is what these histories are about.
+ *  mislabelled-proto:<file>:<updater>   a record's transport label does not fit the framing of its stored packet; names
+ *        the call-out after which the record read like that for the first time;
+ *  resource-unreachable:after-restart:over-tcp   mixed-transport histories: a fresh TCP connection after the restart GETs
+ *        every dynamic resource that must exist.
+ *
  * Knobs for experiments (not used by bin/check): C17_FULL_DEPTH (histories with kills), C17_FREE_DEPTH (kill free
  * histories), C17_LIVES3_DEPTH (kill in the restart), C17_DOUBLE_DEPTH (kill in life 1 and in the restart); for histories
  * with a mid-history restart (depth = operations, markers not counted): C17_RST_FULL_DEPTH, C17_RST_FREE_DEPTH,
@@ -68,11 +83,12 @@ extern int __lsan_do_recoverable_leak_check(void) __attribute__((weak));
 enum { OP_PUT, OP_DEL, OP_REG, OP_CAN, OP_CHG, OP_RST };
 enum { R_S1, R_D1, R_D2, R_D3, NRES };
 static const char *res_names[NRES] = {"s1", "d1", "d1x", "d2"}; /* the second dynamic name extends the first: records are told apart by the whole name */
-enum { P_CTL, P_1, P_2, P_PROBE, NPEER };
+enum { P_CTL, P_1, P_2, P_PROBE, P_T, NPEER }; /* P_T: the raw CoAP-over-TCP peer (control requests and observer over TCP) */
 #define MAXOPS 8
 struct op {
   uint8_t t, p, r;
   uint16_t c; /* OP_CHG: number of changes; OP_RST: 0 = graceful stop, 1 = kill between two operations */
+  uint8_t x;  /* transport of the request (OP_PUT, OP_DEL, OP_REG, OP_CAN): 0 = UDP, 1 = TCP (then the requester is P_T) */
 };
 struct scn {
   char name[200];
@@ -81,22 +97,29 @@ struct scn {
   struct op ops[MAXOPS];
   int bound;
   int lives; /* 2: judge after one restart; 3: additionally a kill during the restart, judged by a second restart */
+  int mixed; /* member of the explicit mixed-transport family (some operation arrives over TCP) */
 };
 
 static void
 op_str(const struct op *o, char *b, size_t n) {
+  const char *via = o->x ? "@tcp" : ""; /* (names of the all-UDP histories stay what they were) */
+  char who[8];
+  if (o->p == P_T)
+    snprintf(who, sizeof who, "t");
+  else
+    snprintf(who, sizeof who, "p%d", o->p);
   switch (o->t) {
   case OP_PUT:
-    snprintf(b, n, "put(%s)", res_names[o->r]);
+    snprintf(b, n, "put(%s)%s", res_names[o->r], via);
     break;
   case OP_DEL:
-    snprintf(b, n, "del(%s)", res_names[o->r]);
+    snprintf(b, n, "del(%s)%s", res_names[o->r], via);
     break;
   case OP_REG:
-    snprintf(b, n, "reg(p%d,%s)", o->p, res_names[o->r]);
+    snprintf(b, n, "reg(%s,%s)%s", who, res_names[o->r], via);
     break;
   case OP_CAN:
-    snprintf(b, n, "cancel(p%d,%s)", o->p, res_names[o->r]);
+    snprintf(b, n, "cancel(%s,%s)%s", who, res_names[o->r], via);
     break;
   case OP_RST:
     snprintf(b, n, "%s", o->c ? "kill+restart" : "stop+restart");
@@ -157,7 +180,9 @@ struct report {
   int startup_ret;
   int startup_calls;
   int exists[NRES], get_code[NRES];
+  int get_code_tcp[NRES]; /* mixed-transport histories: answer to a GET over a fresh TCP connection (0 = not asked, -1 = no answer) */
   int sub[NPEER][NRES]; /* 1: subscriber entry with original token, 2: with another token */
+  int tcp_conns, tcp_notifs; /* history: connections peer t made, notifications it read (log only) */
   /* problems seen inside the life process */
   int nfail;
   char fsig[4][100], fmsg[4][300];
@@ -403,6 +428,8 @@ peer_of_sin(const struct sockaddr_in *sin) {
 struct prec {
   char name[24];
   int peer, res, tok_ok;
+  int stream;     /* the record's transport label is one with RFC 8323 framing (TCP, TLS, WS, WSS) */
+  int mislabelled; /* the stored packet reads with the other transport family's framing only */
   uint32_t val;
   uint64_t h;
 };
@@ -434,6 +461,98 @@ torn(struct pfile *P, const char *fmt, ...) {
     if ((size_t)len - o < (size_t)(nbytes))                                                                            \
       return torn(P, "record %d truncated inside %s (offset %zu of %u)", P->n + 1, what, o, len);                      \
   } while (0)
+
+/* RFC 8323 3.2 framing of one message: Len nibble | TKL nibble, extended length (0/1/2/4 bytes), code, token, then Len
+ * bytes of options and payload.  Exactly one message, nothing behind it.  Filled into the datagram reader's structure
+ * (type / mid do not exist on a stream). */
+static int
+t_frame(const uint8_t *b, size_t n, size_t *total, int *code, int *tkl, const uint8_t **tok, const uint8_t **body, size_t *blen) {
+  if (n < 2)
+    return 0;
+  size_t ext, L;
+  switch (b[0] >> 4) {
+  case 13:
+    ext = 1;
+    break;
+  case 14:
+    ext = 2;
+    break;
+  case 15:
+    ext = 4;
+    break;
+  default:
+    ext = 0;
+  }
+  if (n < 1 + ext + 1)
+    return 0;
+  if (ext == 0)
+    L = b[0] >> 4;
+  else if (ext == 1)
+    L = 13u + b[1];
+  else if (ext == 2)
+    L = 269u + ((size_t)b[1] << 8 | b[2]);
+  else
+    L = 65805u + ((size_t)b[1] << 24 | (size_t)b[2] << 16 | (size_t)b[3] << 8 | b[4]);
+  *tkl = b[0] & 15;
+  if (*tkl > 8)
+    return -1;
+  *total = 1 + ext + 1 + (size_t)*tkl + L;
+  if (n < *total)
+    return 0;
+  *code = b[1 + ext];
+  *tok = b + 2 + ext;
+  *body = *tok + *tkl;
+  *blen = L;
+  return 1;
+}
+static int
+t_parse(const uint8_t *b, size_t n, struct w_msg *m, uint8_t scratch[], size_t cap) {
+  size_t total, blen;
+  int code, tkl;
+  const uint8_t *tok, *body;
+  memset(m, 0, sizeof *m);
+  if (t_frame(b, n, &total, &code, &tkl, &tok, &body, &blen) != 1 || total != n || 4 + blen > cap)
+    return 0;
+  /* options and payload are coded as in a datagram: let the datagram reader walk them behind an empty header */
+  scratch[0] = 0x40;
+  scratch[1] = (uint8_t)code;
+  scratch[2] = scratch[3] = 0;
+  memcpy(scratch + 4, body, blen);
+  if (!w_parse(scratch, 4 + blen, m))
+    return 0;
+  m->tkl = tkl;
+  memcpy(m->token, tok, (size_t)tkl);
+  return 1;
+}
+static int
+proto_is_stream(coap_proto_t p) {
+  return p == COAP_PROTO_TCP || p == COAP_PROTO_TLS || p == COAP_PROTO_WS || p == COAP_PROTO_WSS;
+}
+/* The stored packet of a record, read with the framing its transport label says: a request (code_lo..code_hi) and, when
+ * the record names its resource, for that Uri-Path.  1 = yes; 2 = only the other transport family's framing reads it as
+ * such; 0 = neither does. */
+static int
+stored_is(int stream, const uint8_t *b, size_t n, struct w_msg *m, uint8_t scratch[], size_t cap, int code_lo, int code_hi, const uint8_t *path,
+          size_t plen) {
+  if (!(stream ? t_parse(b, n, m, scratch, cap) : w_parse(b, n, m)) || m->code < code_lo || m->code > code_hi)
+    return 0;
+  if (path) {
+    const struct w_opt *up = w_find(m, 11);
+    if (!up || up->len != plen || memcmp(up->val, path, plen))
+      return 0;
+  }
+  return 1;
+}
+static int
+parse_stored(coap_proto_t proto, const uint8_t *b, size_t n, struct w_msg *m, uint8_t scratch[], size_t cap, int code_lo, int code_hi,
+             const uint8_t *path, size_t plen) {
+  int stream = proto_is_stream(proto);
+  if (stored_is(stream, b, n, m, scratch, cap, code_lo, code_hi, path, plen))
+    return 1;
+  if (stored_is(!stream, b, n, m, scratch, cap, code_lo, code_hi, path, plen))
+    return 2;
+  return 0;
+}
 
 /* observe file: key | proto | listen addr | addr tuple | ssize len | packet | ssize len or -1 | oscore */
 static int
@@ -473,8 +592,12 @@ parse_obs(const uint8_t *b, uint32_t len, struct pfile *P) {
       return torn(P, "record %d: packet length %zd is impossible", P->n + 1, sz);
     NEED(sz, "packet");
     struct w_msg m;
-    if (!w_parse(b + o, (size_t)sz, &m) || m.code != 1 /* GET */)
+    uint8_t scratch[600];
+    int how = parse_stored(proto, b + o, (size_t)sz, &m, scratch, sizeof scratch, 1, 1, NULL, 0);
+    if (!how)
       return torn(P, "record %d: stored packet is not a CoAP GET", P->n + 1);
+    r->stream = proto_is_stream(proto);
+    r->mislabelled = how == 2;
     const struct w_opt *ob = w_find(&m, 6);
     if (!ob || w_uint(ob) != 0)
       return torn(P, "record %d: stored packet has no Observe:0", P->n + 1);
@@ -529,6 +652,8 @@ parse_dyn(const uint8_t *b, uint32_t len, struct pfile *P) {
     r->res = res_index(b + o, (size_t)sz);
     snprintf(r->name, sizeof r->name, "%.*s", (int)(sz > 20 ? 20 : sz), (const char *)(b + o));
     h = vx_fnv(b + o, (size_t)sz, h);
+    const uint8_t *nptr = b + o;
+    size_t nsz = (size_t)sz;
     o += (size_t)sz;
     NEED(sizeof sz, "packet length");
     memcpy(&sz, b + o, sizeof sz);
@@ -537,8 +662,12 @@ parse_dyn(const uint8_t *b, uint32_t len, struct pfile *P) {
       return torn(P, "record %d: packet length %zd is impossible", P->n + 1, sz);
     NEED(sz, "packet");
     struct w_msg m;
-    if (!w_parse(b + o, (size_t)sz, &m) || m.code < 1 || m.code > 31)
-      return torn(P, "record %d: stored packet is not a CoAP request", P->n + 1);
+    uint8_t scratch[600];
+    int how = parse_stored(proto, b + o, (size_t)sz, &m, scratch, sizeof scratch, 1, 31, nptr, nsz);
+    if (!how)
+      return torn(P, "record %d: stored packet is not a CoAP request for the resource the record names", P->n + 1);
+    r->stream = proto_is_stream(proto);
+    r->mislabelled = how == 2;
     h = vx_fnv(b + o, (size_t)sz, h);
     o += (size_t)sz;
     r->h = h;
@@ -605,7 +734,8 @@ pfile_eq(const struct pfile *a, const struct pfile *b) {
     return 0;
   for (int i = 0; i < a->n; i++) {
     const struct prec *x = &a->rec[i], *y = &b->rec[i];
-    if (strcmp(x->name, y->name) || x->peer != y->peer || x->res != y->res || x->tok_ok != y->tok_ok || x->val != y->val || x->h != y->h)
+    if (strcmp(x->name, y->name) || x->peer != y->peer || x->res != y->res || x->tok_ok != y->tok_ok || x->val != y->val || x->h != y->h || x->stream != y->stream ||
+        x->mislabelled != y->mislabelled)
       return 0;
   }
   return 1;
@@ -623,9 +753,11 @@ pfile_str(int f, const struct pfile *P, char *out, size_t n) {
     if (f == F_CNT)
       o += (size_t)snprintf(out + o, n - o, "%s%s=%u", i ? " " : "", P->rec[i].name, P->rec[i].val);
     else if (f == F_OBS)
-      o += (size_t)snprintf(out + o, n - o, "%s%s%s", i ? " " : "", P->rec[i].name, P->rec[i].tok_ok ? "" : "(token?)");
+      o += (size_t)snprintf(out + o, n - o, "%s%s%s%s%s", i ? " " : "", P->rec[i].name, P->rec[i].tok_ok ? "" : "(token?)",
+                            P->rec[i].stream ? "@tcp" : "", P->rec[i].mislabelled ? "(other-framing!)" : "");
     else
-      o += (size_t)snprintf(out + o, n - o, "%s%s", i ? " " : "", P->rec[i].name);
+      o += (size_t)snprintf(out + o, n - o, "%s%s%s%s", i ? " " : "", P->rec[i].name, P->rec[i].stream ? "@tcp" : "",
+                            P->rec[i].mislabelled ? "(other-framing!)" : "");
   }
   o += (size_t)snprintf(out + o, n - o, "]");
   if (P->torn && o + 20 < n)
@@ -773,6 +905,124 @@ request(int peer, int code, const char *path, int observe, const uint8_t *tok, i
   pump();
 }
 
+/* ---- peer t: a raw CoAP-over-TCP client (RFC 8323), one connection per server process ---- */
+static ns_stream_t *tcp_st;
+static uint8_t tcp_rx[4096];
+static size_t tcp_rxlen;
+static int tcp_csm_seen, tcp_gone;
+/* what the server wrote to the connection since the last look: CSM, responses, notifications */
+static void
+tcp_drain(void) {
+  if (!tcp_st)
+    return;
+  for (;;) {
+    size_t got = ns_stream_raw_read(tcp_st, 0, tcp_rx + tcp_rxlen, sizeof tcp_rx - tcp_rxlen);
+    if (!got)
+      break;
+    tcp_rxlen += got;
+    for (;;) {
+      size_t total, blen;
+      int code, tkl;
+      const uint8_t *tok, *body;
+      int k = t_frame(tcp_rx, tcp_rxlen, &total, &code, &tkl, &tok, &body, &blen);
+      if (k == 0)
+        break;
+      struct w_msg m;
+      uint8_t scratch[1400];
+      if (k < 0 || !t_parse(tcp_rx, total, &m, scratch, sizeof scratch)) {
+        rep_fail("wire:malformed:tcp", "server wrote a malformed message to the TCP connection");
+        tcp_rxlen = 0;
+        return;
+      }
+      if (code == 0xE1) /* 7.01 CSM */
+        tcp_csm_seen = 1;
+      else if (code == 0xE4 || code == 0xE5) /* 7.04 Release / 7.05 Abort */
+        tcp_gone = 1;
+      else if (code >= 64 && code < 0xE0) {
+        uint8_t tk[3];
+        int notif = 0;
+        for (int r = 0; r < NRES; r++) {
+          tok_of(P_T, r, tk);
+          if (tkl == 3 && !memcmp(tok, tk, 3) && w_find(&m, 6))
+            notif = 1;
+        }
+        if (notif && cur_during < 0 && last_code[P_T] != -1)
+          R->tcp_notifs++; /* not the answer to the request that is being waited for */
+        else {
+          last_code[P_T] = code;
+          last_has_obs[P_T] = w_find(&m, 6) != NULL;
+        }
+      }
+      memmove(tcp_rx, tcp_rx + total, tcp_rxlen - total);
+      tcp_rxlen -= total;
+    }
+    if (tcp_rxlen == sizeof tcp_rx) {
+      rep_fail("harness:tcp-rx", "TCP receive buffer full");
+      tcp_rxlen = 0;
+    }
+  }
+}
+static int
+tcp_connect(void) {
+  if (tcp_st && !tcp_gone)
+    return 1;
+  coap_address_t from = peer_addr[P_T];
+  from.addr.sin.sin_port = htons((uint16_t)(ns_addr_port(&peer_addr[P_T]) + 16 * R->seg + (cur_op >= 100 ? 8 : 0))); /* a new connection has a new source port */
+  tcp_rxlen = 0;
+  tcp_csm_seen = tcp_gone = 0;
+  tcp_st = ns_stream_raw_connect(&from, &srv_addr);
+  if (!tcp_st) {
+    rep_fail("harness:tcp-connect", "TCP connect to the server failed");
+    return 0;
+  }
+  static const uint8_t csm[2] = {0x00, 0xE1}; /* Len 0, TKL 0, 7.01 */
+  ns_stream_raw_write(tcp_st, 0, csm, 2);
+  ns_stream_release_all(tcp_st, 1);
+  tcp_drain();
+  if (!tcp_csm_seen)
+    rep_fail("harness:tcp-csm", "no CSM from the server on a new TCP connection");
+  R->tcp_conns++;
+  return 1;
+}
+static void
+request_tcp(int code, const char *path, int observe, const uint8_t *tok, int tkl, const char *payload) {
+  last_code[P_T] = -1;
+  last_has_obs[P_T] = 0;
+  if (!tcp_connect())
+    return;
+  struct w_buf w; /* options and payload as in a datagram, then the stream framing around them */
+  w_begin(&w, 0, code, 0, NULL, 0);
+  if (observe >= 0)
+    w_opt_uint(&w, 6, (uint32_t)observe);
+  w_opt_add(&w, 11, path, strlen(path));
+  if (payload)
+    w_payload(&w, payload, strlen(payload));
+  size_t blen = w.n - 4, n = 0;
+  uint8_t f[300];
+  if (blen < 13)
+    f[n++] = (uint8_t)(blen << 4 | (unsigned)tkl);
+  else {
+    f[n++] = (uint8_t)(13 << 4 | (unsigned)tkl);
+    f[n++] = (uint8_t)(blen - 13);
+  }
+  f[n++] = (uint8_t)code;
+  memcpy(f + n, tok, (size_t)tkl);
+  n += (size_t)tkl;
+  memcpy(f + n, w.b + 4, blen);
+  n += blen;
+  ns_stream_raw_write(tcp_st, 0, f, n);
+  ns_stream_release_all(tcp_st, 1);
+  pump();
+  tcp_drain();
+}
+static void
+request_via(int tcp, int peer, int code, const char *path, int observe, const uint8_t *tok, int tkl, const char *payload) {
+  if (tcp)
+    request_tcp(code, path, observe, tok, tkl, payload);
+  else
+    request(peer, code, path, observe, tok, tkl, payload);
+}
+
 /* ---- shims around the persistence call-outs: updater boundaries, snapshots ---- */
 static coap_observe_added_t o_observe_added;
 static coap_observe_deleted_t o_observe_deleted;
@@ -876,6 +1126,9 @@ server_start(int track_startup) {
   ctx = coap_new_context(NULL);
   ns_register_ctx(ctx);
   coap_new_endpoint(ctx, &srv_addr, COAP_PROTO_UDP);
+  if (!coap_new_endpoint(ctx, &srv_addr, COAP_PROTO_TCP)) /* same address, as coap-server listens */
+    rep_fail("harness:tcp-endpoint", "coap_new_endpoint(COAP_PROTO_TCP) failed");
+  tcp_st = NULL;
   coap_resource_t *r = coap_resource_init(coap_make_str_const("s1"), 0);
   coap_register_request_handler(r, COAP_REQUEST_GET, hnd_get);
   coap_resource_set_get_observable(r, 1);
@@ -928,25 +1181,29 @@ do_op(int i) {
   char what[40];
   op_str(o, what, sizeof what);
   switch (o->t) {
-  case OP_PUT:
-    request(P_CTL, 3, res_names[o->r], -1, (const uint8_t *)"\x01", 1, "x");
-    if (last_code[P_CTL] != 65)
-      rep_fail("op-failed:put", "%s answered with code %d", what, last_code[P_CTL]);
+  case OP_PUT: {
+    int c = o->x ? P_T : P_CTL;
+    request_via(o->x, c, 3, res_names[o->r], -1, (const uint8_t *)"\x01", 1, "x");
+    if (last_code[c] != 65)
+      rep_fail("op-failed:put", "%s answered with code %d", what, last_code[c]);
     break;
-  case OP_DEL:
-    request(P_CTL, 4, res_names[o->r], -1, (const uint8_t *)"\x02", 1, NULL);
-    if (last_code[P_CTL] != 66)
-      rep_fail("op-failed:del", "%s answered with code %d", what, last_code[P_CTL]);
+  }
+  case OP_DEL: {
+    int c = o->x ? P_T : P_CTL;
+    request_via(o->x, c, 4, res_names[o->r], -1, (const uint8_t *)"\x02", 1, NULL);
+    if (last_code[c] != 66)
+      rep_fail("op-failed:del", "%s answered with code %d", what, last_code[c]);
     break;
+  }
   case OP_REG:
     tok_of(o->p, o->r, tk);
-    request(o->p, 1, res_names[o->r], 0, tk, 3, NULL);
+    request_via(o->x, o->p, 1, res_names[o->r], 0, tk, 3, NULL);
     if (last_code[o->p] != 69 || !last_has_obs[o->p])
       rep_fail("op-failed:reg", "%s answered with code %d observe=%d", what, last_code[o->p], last_has_obs[o->p]);
     break;
   case OP_CAN:
     tok_of(o->p, o->r, tk);
-    request(o->p, 1, res_names[o->r], 1, tk, 3, NULL);
+    request_via(o->x, o->p, 1, res_names[o->r], 1, tk, 3, NULL);
     if (last_code[o->p] != 69 || last_has_obs[o->p])
       rep_fail("op-failed:cancel", "%s answered with code %d observe=%d", what, last_code[o->p], last_has_obs[o->p]);
     break;
@@ -960,6 +1217,7 @@ do_op(int i) {
       }
       coap_resource_notify_observers(r, NULL);
       pump();
+      tcp_drain();
     }
     break;
   }
@@ -1049,6 +1307,11 @@ life_restart(int die_at) {
     request(P_PROBE, 1, res_names[i], -1, (const uint8_t *)"\x09", 1, NULL);
     R->get_code[i] = last_code[P_PROBE];
   }
+  if (S->mixed) /* a fresh TCP connection (the old one died with the old process) reaches the restored resources as well */
+    for (int i = 0; i < NRES; i++) {
+      request_tcp(1, res_names[i], -1, (const uint8_t *)"\x0a", 1, NULL);
+      R->get_code_tcp[i] = last_code[P_T];
+    }
   for (cur_round = 0; cur_round < 2; cur_round++)
     for (int i = 0; i < NRES; i++) {
       coap_str_const_t n = {strlen(res_names[i]), (const uint8_t *)res_names[i]};
